@@ -49,7 +49,6 @@ def decAcc : Bytes → Nat → Option Nat
 /-- `"…".parse::<uN>()` for `N = w`: optional leading `+`, at least one digit,
 nothing else, value < 2^w. -/
 def parseUInt (w : Nat) (s : Bytes) : Option Nat :=
-  let s := s.dropWhile (· == 32)
   let digits := match s with
     | 43 :: rest => rest
     | _ => s
